@@ -11,7 +11,9 @@ from sim.core import Chooser, EventLog, Violation, stable_hash
 from sim.faults import FAULT_KINDS, FaultyLark, ParseSeam, text_key
 
 # valid in unusual ways: empty / blank parts (fbody: stmt* accepts them), braces inside string literals
-EDGE_OK = ["", "   ", "{ fatal(\"{\"); }", "{ fatal(\"} {\"); }", "{ fatal(\"a  b\"); }", "{ fatal(\"a\tb   c\"); }"]
+SIZES = [b + d for b in (256, 512, 1024, 2048, 4096) for d in (-1, 0, 1)]
+HUGE = ["{ fatal(\"%s\"); }" % (c * 70000) for c in "abc"]
+EDGE_OK = ["", "   ", "{ RdV = IS_INF(RsV); }", "{ fatal(\"{\"); }", "{ fatal(\"} {\"); }", "{ fatal(\"a  b\"); }", "{ fatal(\"a\tb   c\"); }"]
 BROKEN = [
     # double faults: an early lexical error *and* an unbalanced brace
     "{ RdV = RsV $ 1; ",
@@ -108,6 +110,12 @@ class EngineP(EngineBase):
             if t is not None:
                 hit = ("ok", t, trees.canon(t))
                 self.ref[text] = hit
+        if hit is None and text not in self.tc.data and text.endswith("    ") and text.strip():
+            # blank padding after the closing brace (sized tasks): WS is %ignore'd, the tree is the base text's tree
+            base = self.ref_parse(text.rstrip(" "))
+            if base[0] == "ok":
+                hit = base
+                self.ref[text] = hit
         if hit is None:
             if text in self.tc.data:
                 r = self.tc.data[text]
@@ -147,6 +155,7 @@ class EngineP(EngineBase):
         p_broken = ch.choice([0, 1, 2, 4], "p_broken")
         p_fault = ch.choice([0, 1, 2, 4], "p_fault")
         p_compound = ch.choice([0, 1, 3], "p_compound")
+        p_huge = ch.choice([0, 0, 0, 3], "p_huge")
         tasks, plan, names = [], {}, set()
         uid = 0
         broken_prefix = ch.randint(10, 20, "broken-prefix") if ch.chance(1, 15, "all-broken-start") else 0
@@ -155,7 +164,8 @@ class EngineP(EngineBase):
         for i in range(n):
             kind = ch.weighted([("micro", 6), ("corpus", 4), ("compound", p_compound), ("broken", p_broken),
                                 ("cached", 5 if mode == "memoparse" and self.corpus_cached else 0),
-                                ("fault", p_fault), ("zero", 1 if ch.chance(1, 8, "z") else 0), ("multi", 1)], "kind")
+                                ("fault", p_fault), ("zero", 1 if ch.chance(1, 8, "z") else 0), ("multi", 1),
+                                ("sized", 1), ("huge", p_huge if mode == "memoparse" else 0)], "kind")
             if i < broken_prefix:
                 kind = "broken" if ch.chance(2, 3, "prefix-kind") else "fault"
             if kind == "micro":
@@ -171,6 +181,20 @@ class EngineP(EngineBase):
                 parts = list(parts)
             elif kind == "zero":
                 name, parts = f"z{i}", []
+            elif kind == "sized":
+                # total length of the parts exactly at / next to a power of two (anything the code derives from the size
+                # of a behaviour - task classes, chunking, buffers - must not change the result)
+                name = f"s{i}"
+                total = ch.choice(SIZES, "size")
+                k = ch.weighted([(1, 3), (2, 2), (3, 1)], "sized-parts")
+                bases = [ch.choice(corpus.MICRO, "sized-base") for _ in range(k)]
+                room = total - sum(len(b) for b in bases)
+                cuts = sorted(ch.draw(room + 1, "sized-cut") for _ in range(k - 1)) + [room]
+                pads = [c - p for c, p in zip(cuts, [0] + cuts[:-1])]
+                parts = [b + " " * n for b, n in zip(bases, pads)]
+            elif kind == "huge":
+                # results far beyond the capacity of a pipe (70 kB string literal: parsed once per batch worker, then memoised)
+                name, parts = f"h{i}", [HUGE[ch.draw(len(HUGE), "huge")]]
             elif kind == "multi":
                 name = f"x{i}"
                 if mode == "memoparse" and self.cached_ok_texts and ch.chance(1, 2, "longmulti"):
@@ -238,6 +262,9 @@ class EngineP(EngineBase):
                 if nm not in {x["name"] for x in tasks if x.get("call", 0) == t.get("call", 0)}:
                     tasks.append({"name": nm, "parts": [cat], "call": t.get("call", 0)})
         wl = {"mode": mode, "tasks": tasks, "plan": plan}
+        if ncalls > 1 and ch.chance(1, 3, "overlap"):
+            wl["overlap"] = True
+            wl["overlap_at"] = ch.randint(0, 3, "overlap-at")
         wl["start"] = "spawn" if ch.chance(3, 10, "start-method") else "fork"
         if ch.chance(1, 20, "pool-create-fails"):
             wl["pool_fail"] = ch.choice(["OSError", "AssertionError"], "pool-fail-kind")
@@ -256,8 +283,9 @@ class EngineP(EngineBase):
 
     def describe(self, wl):
         return {"mode": wl["mode"], "plan": wl["plan"],
-                "start": wl.get("start"), "pool_fail": wl.get("pool_fail"), "cpus": wl.get("cpus"), "n_tasks": len(wl["tasks"]),
-                "tasks": [{"name": t["name"], "call": t.get("call", 0), "parts": [p[:80] for p in t["parts"]]} for t in wl["tasks"][:40]]}
+                "start": wl.get("start"), "pool_fail": wl.get("pool_fail"), "overlap": wl.get("overlap"), "overlap_at": wl.get("overlap_at"), "cpus": wl.get("cpus"), "n_tasks": len(wl["tasks"]),
+                "tasks": [{"name": t["name"], "call": t.get("call", 0), "parts": [p[:80] + (f"...[{len(p)} chars]" if len(p) > 80 else "") for p in t["parts"]]}
+                          for t in wl["tasks"][:40]]}
 
     # ------------------------------------------------------------------ execution
     def _install(self):
@@ -398,25 +426,51 @@ class EngineP(EngineBase):
         log.add("cpu_count", cpus)
         calls = sorted({t.get("call", 0) for t in all_tasks}) or [0]
         n_fail_total = 0
-        for ci, call in enumerate(calls):
-            tasks = [t for t in all_tasks if t.get("call", 0) == call]
-            exp = self.reference(workload, tasks)
-            insn_behavior = {t["name"]: list(t["parts"]) for t in tasks}
+        results: dict = {}
+
+        def run_call(ci):
+            tasks_ = [t for t in all_tasks if t.get("call", 0) == calls[ci]]
+            insn_behavior = {t["name"]: list(t["parts"]) for t in tasks_}
+            result_, raised_ = None, None
+            try:
+                result_ = self.P.Parser.parse(insn_behavior)
+            except BaseException as e:  # SimHang / SimStepCap are BaseExceptions on purpose
+                raised_ = e
+            results[ci] = (result_, raised_)
+            log.add("returned", ci, type(raised_).__name__ if raised_ is not None else "ok")
+
+        # overlap: the second call is made by "another caller thread" while the first is blocked inside its pool loop
+        overlap = bool(workload.get("overlap")) and len(calls) >= 2
+        groups = ([[0, 1]] + [[i] for i in range(2, len(calls))]) if overlap else [[i] for i in range(len(calls))]
+        for group in groups:
             simpool.SimPool.sim = (ch, log, stats)
             saved = self._install()
             old_err = sys.stderr
             sys.stderr = self._devnull
-            result, raised = None, None
             try:
-                result = self.P.Parser.parse(insn_behavior)
-            except BaseException as e:  # SimHang / SimStepCap are BaseExceptions on purpose
-                raised = e
+                if len(group) == 2:
+                    simpool.SimPool.reentry = {"at": int(workload.get("overlap_at", 0)), "count": 0, "fn": lambda: run_call(group[1])}
+                run_call(group[0])
+                simpool.SimPool.reentry = None
+                if len(group) == 2 and group[1] not in results:
+                    run_call(group[1])          # the first call never blocked that often: plain succession
+                    out.count("overlap_not_reached")
             finally:
+                simpool.SimPool.reentry = None
                 sys.stderr = old_err
                 self._restore(saved)
                 simpool.cleanup_live_pools()
                 simpool.SimPool.sim = None
-            log.add("returned", ci, type(raised).__name__ if raised is not None else "ok")
+            if any(results[ci][1] is not None for ci in group):
+                break
+        out.count("overlapping_calls", stats.get("reentries", 0))
+
+        for ci, call in enumerate(calls):
+            if ci not in results:
+                break
+            tasks = [t for t in all_tasks if t.get("call", 0) == call]
+            exp = self.reference(workload, tasks)
+            result, raised = results[ci]
 
             def viol(cls, sigkey="", **detail):
                 detail["call"] = ci
